@@ -243,7 +243,7 @@ def check_split_table(ctx):
     st = view.stmt_of(sl)
     lo = view.expand(sl.slice.lower, st, keep=(i,)) if sl.slice.lower is not None else ast.Constant(0)
     hi = view.expand(sl.slice.upper, st, keep=(i,)) if sl.slice.upper is not None else parse_expr('len(%s)' % table_p)
-    norm = Norm()
+    norm = Norm(erase=('float',))      # int() is kept: truncating an inexact float product is not rounding it
     try:
         lo_next = norm.visit(subst_names(lo, {i: parse_expr('%s + 1' % i)}))
         hi_r = norm.visit(hi)
@@ -258,13 +258,17 @@ def check_split_table(ctx):
               sample='upper(i) = %s ; lower(i+1) = %s' % (hi_r.canon(), lo_next.canon()))
 
     def arg_is(r, target):
-        """r is `target` itself or a monotone integer rounding (round/floor/ceil/int) of it"""
+        """r is `target` itself, an exact integer floor division giving it, or [int of] round() of it.
+        A bare int()/floor()/ceil() of the float product i*(len/n) is NOT accepted: n*(len/n) can land just
+        below or above len in floating point and the cut would lose or duplicate a row."""
         if r == target:
             return True
         sa = r.single_atom()
         if sa is not None and sa[1] == 1 and sa[2] == 0:
             info = norm.info(sa[0])
-            if info and info[0] in ('round', 'floor', 'ceil') and info[1][0] == target:
+            if info and info[0] == 'call:int' and len(info[1]) == 1:
+                return arg_is(info[1][0], target) and info[1][0] != target
+            if info and info[0] in ('round', 'floordiv') and info[1][0] == target:
                 return True
         return False
     ctx.check('R-SPLIT/partition-start', f, 'lower(0)==0', arg_is(lo0, Rat.const(0)),
